@@ -113,12 +113,13 @@ Recv ==
   /\ last' = <<"Recv", 0, "-">>
   /\ UNCHANGED <<sent, sendNonce, failedReads, manip>>
 
-\* the application asks for the next record
-\* (a receive_record() issued after the connection is gone is outside the statement: not modelled)
-Read == /\ ~ConsumerMode /\ reads + failedReads + Len(delivered) < MaxReads /\ rstate # "lost"
+\* the application asks for the next record.  A record that arrived whole and authenticated before the connection went away
+\* is still the application's: receive_record() hands it over also when it is called after the loss (queue first, as always).
+\* (a receive_record() issued after the connection is gone *with nothing queued* is outside the statement: it never fires in
+\* the code; not modelled)
+Read == /\ ~ConsumerMode /\ reads + failedReads + Len(delivered) < MaxReads /\ (rstate # "lost" \/ queued # <<>>)
         /\ IF queued # <<>>
            THEN delivered' = Append(delivered, Head(queued)) /\ queued' = Tail(queued) /\ UNCHANGED <<reads, failedReads>>
-           ELSE IF rstate = "lost" THEN failedReads' = failedReads + 1 /\ UNCHANGED <<delivered, queued, reads>>
            ELSE reads' = reads + 1 /\ UNCHANGED <<delivered, queued, failedReads>>
         /\ last' = <<"Read", 0, "-">>
         /\ UNCHANGED <<sent, wire, sendNonce, nextNonce, rstate, desync, manip, tampered, consumerDone>>
@@ -148,5 +149,7 @@ HungUpWhenBad == (tampered /\ ~desync) => rstate \in {"hung up", "lost"}
 NoReadLeftBehind == rstate = "lost" => reads = 0
 \* ... and the Deferred of a consumer that is still waiting for bytes fails too
 ConsumerNotLeftBehind == (ConsumerMode /\ rstate = "lost") => consumerDone # "-"
+\* what arrived intact before the connection went away can still be read afterwards (nothing is lost *from the queue*)
+QueuedObtainable == [][(last'[1] = "Read" /\ queued # <<>>) => delivered' = Append(delivered, Head(queued))]_vars
 ConsumerTruth == (consumerDone = "ok") => delivered = sent /\ Len(sent) = MaxRecords
 ====
